@@ -13,6 +13,29 @@ ALL = [f"C{i:02d}" for i in range(1, 21)]
 NOT_BUILT_REASON = "check not built yet in this round (runtime monitoring applies; see DESIGN.md section 3)"
 
 
+TECHNIQUES = {
+    "C01": "runtime monitoring: postcondition oracle (float64 reference coordinate maps written from the documented anchors) evaluated on every observed call of the real Grid/Cube maps over generated and derived grids; sys.monitoring line coverage of the anchor functions",
+    "C02": "runtime monitoring, differential: every observed index<->world map and header conversion of the real code is compared with SimpleITK executing the same geometry",
+    "C03": "runtime monitoring: contract wrappers (postconditions) installed on the real Grid / Cube derivation methods observe direct calls and random chains of up to three derivations",
+    "C04": "runtime monitoring: conservation oracle (linear ramp image + field-of-view tracker) over observed operation chains on real images, batches and flow fields",
+    "C05": "runtime monitoring, differential: observed resampling results of every sampling API against SimpleITK.Resample on the same headers, incl. module reuse histories",
+    "C06": "runtime monitoring: agreement monitor between all evaluation routes of one transform object (point map, disp, flow, tensor, point-set and image transformers) through the coordinate oracle",
+    "C07": "runtime monitoring: history monitor composing each real transform with its inverse before and after parameter changes, inverse read with and without the call hook",
+    "C08": "runtime monitoring: reference-model monitor (numpy linear algebra) on observed compositions and rotation conversions, incl. transform getters/setters",
+    "C09": "runtime monitoring of operation histories: after every step of a random history the real object is compared with a fresh transform built from its current state (stale-state oracle); exact re-gridding oracle at new sample positions",
+    "C10": "runtime monitoring: representation-independence monitor - the same world-space field observed through all four vector representations, grids and flow operations",
+    "C11": "runtime monitoring: closed-form oracle (matrix exponential / repeated squaring in float64) on observed expv / ExpFlow / SVF buffers",
+    "C12": "runtime monitoring: analytic-derivative oracle on affine / quadratic fields and spline coefficients for every scheme, spacing form and key subset",
+    "C13": "runtime monitoring: algebraic-law monitors (identity, exact affine composition, bilinearity, antisymmetry, call-history independence) and BCH series oracle on observed results",
+    "C14": "runtime monitoring: textbook cubic B-spline reference model (basis, weights, evaluation, subdivision) against both evaluation algorithms and the FFD transforms",
+    "C15": "runtime monitoring: mutation monitor (tensor version counters, byte digests, identity / attribute signatures) around every public functional name (signature-driven option sweeps), every accessor and the repository's own tests (pytest plugin)",
+    "C16": "runtime monitoring: axiom monitors (minimum, range, symmetry, invariance, mask and reduction relations) on observed values of every image loss and module",
+    "C17": "runtime monitoring: analytic values, null spaces, homogeneity and unit conversions of every regulariser observed on generated fields",
+    "C18": "runtime monitoring: round-trip and cross-reader monitor (deepali <-> SimpleITK in both directions, header text parser, read sequences in one process) on real files in a temporary directory",
+    "C19": "runtime monitoring: provenance-carrier monitor (item i carries 2^i) over single operations and random torch programs on typed batches; copy / deepcopy / pickle / collate",
+    "C20": "runtime monitoring: autograd vs central finite differences on the real operations; a torch function mode observes float32 casts to choose the step size, a rounding recorder attributes vanishing gradients to call sites",
+}
+
 def main():
     checks, na = [], []
     for pid in ALL:
@@ -40,7 +63,7 @@ def main():
                     "design_ref": f"DESIGN.md section 3, {pid}",
                 },
                 "level_note": getattr(mod, "LEVEL_NOTE", None) or "; ".join(getattr(mod, "ASSUMPTIONS", [])),
-                "technique": getattr(mod, "TECHNIQUE", "runtime monitoring: generated workload + independent oracle/contract monitors on the real functions"),
+                "technique": getattr(mod, "TECHNIQUE", TECHNIQUES.get(pid, "runtime monitoring: generated workload + independent oracle/contract monitors on the real functions")),
             }
         )
     manifest = {
